@@ -399,10 +399,15 @@ func (m *Machine) symRegexpCall(re *regexp.Regexp, name string, fn *ssa.Function
 		case Slice:
 			repl = m.sliceToStr(x)
 		}
-		if name != "ReplaceAllLiteralString" && (repl.Sym != nil || strings.Contains(repl.S, "$")) {
+		if name != "ReplaceAllLiteralString" && repl.Sym != nil {
 			return nil, false
 		}
-		out := m.reReplaceAll(rp, s, in, repl)
+		var out Str
+		if name != "ReplaceAllLiteralString" && strings.Contains(repl.S, "$") {
+			out = m.reReplaceExpand(rp, re, s, in, repl.S)
+		} else {
+			out = m.reReplaceAll(rp, s, in, repl)
+		}
 		if name == "ReplaceAll" {
 			if len(out.S) == 0 && len(s.S) == 0 {
 				return nilSlice(1), true
@@ -412,4 +417,117 @@ func (m *Machine) symRegexpCall(re *regexp.Regexp, name string, fn *ssa.Function
 		return out, true
 	}
 	return nil, false
+}
+
+// reReplaceExpand is ReplaceAllString with $-template expansion (regexp.expand rules).
+func (m *Machine) reReplaceExpand(rp *reProg, re *regexp.Regexp, s Str, in *reInput, tmpl string) Str {
+	n := len(in.runes)
+	out := Str{}
+	lastEnd := 0
+	names := re.SubexpNames()
+	group := func(caps []int, k int) Str {
+		if k < 0 || 2*k+1 >= len(caps) || caps[2*k] < 0 {
+			return Str{}
+		}
+		return s.slice(in.offs[caps[2*k]], in.offs[caps[2*k+1]])
+	}
+	expand := func(caps []int) Str {
+		res := Str{}
+		t := tmpl
+		for len(t) > 0 {
+			i := strings.IndexByte(t, '$')
+			if i < 0 {
+				break
+			}
+			res = concatStr(res, Str{S: t[:i]})
+			t = t[i:]
+			if len(t) > 1 && t[1] == '$' {
+				res = concatStr(res, Str{S: "$"})
+				t = t[2:]
+				continue
+			}
+			name, num, rest, ok := reExtract(t)
+			if !ok {
+				res = concatStr(res, Str{S: "$"})
+				t = t[1:]
+				continue
+			}
+			t = rest
+			if num >= 0 {
+				res = concatStr(res, group(caps, num))
+			} else {
+				for k, nm := range names {
+					if nm == name && k < len(caps)/2 && caps[2*k] >= 0 {
+						res = concatStr(res, group(caps, k))
+						break
+					}
+				}
+			}
+		}
+		return concatStr(res, Str{S: t})
+	}
+	for search := 0; search <= n; {
+		caps := m.reExec(rp, in, search)
+		if caps == nil {
+			break
+		}
+		out = concatStr(out, s.slice(in.offs[lastEnd], in.offs[caps[0]]))
+		if caps[1] > lastEnd || caps[0] == 0 {
+			out = concatStr(out, expand(caps))
+		}
+		lastEnd = caps[1]
+		if search+1 > caps[1] {
+			search++
+		} else {
+			search = caps[1]
+		}
+	}
+	out = concatStr(out, s.slice(in.offs[lastEnd], len(s.S)))
+	return out.norm()
+}
+
+// reExtract mirrors regexp.extract: "$name", "${name}", "$1", "${1}".
+func reExtract(str string) (name string, num int, rest string, ok bool) {
+	if len(str) < 2 || str[0] != '$' {
+		return
+	}
+	brace := false
+	if str[1] == '{' {
+		brace = true
+		str = str[2:]
+	} else {
+		str = str[1:]
+	}
+	i := 0
+	for i < len(str) {
+		c := str[i]
+		if !(c == '_' || (c >= '0' && c <= '9') || (c >= 'a' && c <= 'z') || (c >= 'A' && c <= 'Z')) {
+			break
+		}
+		i++
+	}
+	if i == 0 {
+		return
+	}
+	name = str[:i]
+	if brace {
+		if i >= len(str) || str[i] != '}' {
+			return
+		}
+		i++
+	}
+	num = 0
+	for k := 0; k < len(name); k++ {
+		if name[k] < '0' || name[k] > '9' || num >= 1e8 {
+			num = -1
+			break
+		}
+		num = num*10 + int(name[k]) - '0'
+	}
+	if name[0] == '0' && len(name) > 1 {
+		num = -1
+	}
+	rest = str[i:]
+	ok = true
+	return
 }
